@@ -1,6 +1,6 @@
 \* intended state graph, quotient by the value state, 3 trees, edit universe u1 (Leaf u, Mid v, Leaf E1, class Leaf): every transition logged (TR)
 CONSTANTS DeepCopyRebindsParents = TRUE CopyHookBoundToCopy = TRUE FlattenCopiesTop = FALSE
-          Universe = "u1" MaxTrees = 3 MaxOps = 1000000
+          Lib = "flat" Universe = "u1" MaxTrees = 3 MaxOps = 1000000
 INIT Init
 NEXT Next
 VIEW ViewVal
